@@ -45,8 +45,8 @@ struct KSpec {
 
 // distinct guids and values; K1U differs from K1 only by the letter case of the guid, K1R re-issues K1's guid with another
 // secret, KH's guid is itself a valid hex string (could be mistaken for a key), KL has a lower-case secret,
-// KN has a guid outside ASCII, KE is the agent's own "empty" key (zero guid, empty secret)
-const KEYS: [KSpec; 8] = [
+// KN has a guid outside ASCII, KE is the agent's own "empty" key (zero guid, empty secret), K3 is one more ordinary key
+const KEYS: [KSpec; 9] = [
     KSpec { name: "K1", guid: "1a1a1a1a-aaaa-4bbb-8ccc-0123456789ab", value: "4A404E635266556A586E3272357538782F413F4428472B4B6250645367566B59", inc: 1 },
     KSpec { name: "K2", guid: "2b2b2b2b-dddd-4eee-9fff-ba9876543210", value: "2B4D6251655468576D5A7134743777217A25432A462D4A614E645266556A586E", inc: 2 },
     KSpec { name: "K1U", guid: "1A1A1A1A-AAAA-4BBB-8CCC-0123456789AB", value: "38782F413F4428472B4B6250655368566D5971337436773979244226452948404D", inc: 3 },
@@ -55,6 +55,7 @@ const KEYS: [KSpec; 8] = [
     KSpec { name: "KL", guid: "3c3c3c3c-1234-4abc-8def-00000000beef", value: "7538782f413f4428472b4b6250655368566d597133743677397a244326462948", inc: 6 },
     KSpec { name: "KN", guid: "cl\u{e9}-\u{43a}\u{43b}\u{44e}\u{447}-7", value: "462D4A614E645267556B58703273357638792F423F4528482B4D6251655468576D", inc: 7 },
     KSpec { name: "KE", guid: "00000000-0000-0000-0000-000000000000", value: "", inc: 0 },
+    KSpec { name: "K3", guid: "3d3d3d3d-5678-4cde-9abc-112233445566", value: "28482B4D6251655468576D5A7134743777217A25432A462D4A614E645267556B", inc: 8 },
 ];
 const K1: usize = 0;
 const K2: usize = 1;
@@ -64,6 +65,7 @@ const KH: usize = 4;
 const KL: usize = 5;
 const KN: usize = 6;
 const KE: usize = 7;
+const K3: usize = 8;
 
 /// latched state: None = no key
 type St = Option<usize>;
@@ -1089,11 +1091,11 @@ fn console_vxw_c10_a_poll_loop() {
         reqs
     };
     // wait until the actor shows the expected state (public getter); false on timeout
-    let converge = |h: &Harness, want: St| -> bool {
+    let converge = |h: &Harness, wants: &[St]| -> bool {
         let t0 = std::time::Instant::now();
         loop {
             let got = h.rt.block_on(kk.get_current_key()).ok().flatten();
-            if same_record(&got, want) {
+            if wants.iter().any(|w| same_record(&got, *w)) {
                 return true;
             }
             if t0.elapsed() > Duration::from_secs(4) {
@@ -1103,68 +1105,109 @@ fn console_vxw_c10_a_poll_loop() {
         }
     };
     let mut story: Vec<String> = Vec::new();
-    let mut phase = |t: &mut Tally, story: &mut Vec<String>, what: &str, during: &[St], want: St| {
+    let mut phase = |t: &mut Tally, story: &mut Vec<String>, what: &str, during: &[St], wants: &[St]| {
         story.push(what.to_string());
         // while the poll loop is at work
         let reqs = round(&h);
         t.check_all("all signing sites, poll loop rotating", serde_json::json!({"key_keeper_host": story.clone(), "requests": "while the poll loop reacts"}), &reqs, during, 6);
-        let ok = converge(&h, want);
+        let ok = converge(&h, wants);
         if !ok {
             let got = h.rt.block_on(kk.get_current_key()).map_err(|e| e.to_string());
             t.cases += 1;
-            t.fail(serde_json::json!({"property": "C10", "site": "poll loop", "history": {"key_keeper_host": story.clone()}, "got": {"latched_after_4s": show(&got)}, "want": st_name(want)}));
+            t.fail(serde_json::json!({"property": "C10", "site": "poll loop", "history": {"key_keeper_host": story.clone()}, "got": {"latched_after_4s": show(&got)}, "want": {"one_of": sts(wants)}}));
         }
         for _ in 0..2 {
             let reqs = round(&h);
-            t.check_all("all signing sites, after the poll loop latched", serde_json::json!({"key_keeper_host": story.clone(), "requests": "after the poll loop settled"}), &reqs, &[want], 6);
+            t.check_all("all signing sites, after the poll loop latched", serde_json::json!({"key_keeper_host": story.clone(), "requests": "after the poll loop settled"}), &reqs, wants, 6);
         }
     };
 
-    phase(&mut t, &mut story, "secure channel disabled", &[None], None);
+    phase(&mut t, &mut story, "secure channel disabled", &[None], &[None]);
     {
         let mut g = kkh.st.lock().unwrap();
         g.channel = "Wireserver";
         g.offered = K1;
         g.status_guid = None;
     }
-    phase(&mut t, &mut story, "secure channel enabled, host hands out K1", &[None, Some(K1)], Some(K1));
+    phase(&mut t, &mut story, "secure channel enabled, host hands out K1", &[None, Some(K1)], &[Some(K1)]);
     {
         let mut g = kkh.st.lock().unwrap();
         g.offered = K2;
         g.status_guid = Some(KEYS[K2].guid.to_string());
     }
-    phase(&mut t, &mut story, "host announces K2 (not known locally) and hands it out", &[Some(K1), Some(K2)], Some(K2));
+    phase(&mut t, &mut story, "host announces K2 (not known locally) and hands it out", &[Some(K1), Some(K2)], &[Some(K2)]);
     {
         let mut g = kkh.st.lock().unwrap();
         g.channel = "Disabled";
     }
-    phase(&mut t, &mut story, "secure channel disabled", &[Some(K2), None], None);
+    phase(&mut t, &mut story, "secure channel disabled", &[Some(K2), None], &[None]);
     {
         let mut g = kkh.st.lock().unwrap();
         g.channel = "WireserverAndImds";
         g.offered = KL;
         g.status_guid = Some(KEYS[K1].guid.to_string());
     }
-    phase(&mut t, &mut story, "secure channel enabled, host announces K1 again (stored locally)", &[None, Some(K1)], Some(K1));
+    phase(&mut t, &mut story, "secure channel enabled, host announces K1 again (stored locally)", &[None, Some(K1)], &[Some(K1)]);
     {
         let mut g = kkh.st.lock().unwrap();
         g.offered = KH;
         g.status_guid = Some(KEYS[KH].guid.to_string());
     }
-    phase(&mut t, &mut story, "host announces KH (guid is a hex string) and hands it out", &[Some(K1), Some(KH)], Some(KH));
+    phase(&mut t, &mut story, "host announces KH (guid is a hex string) and hands it out", &[Some(K1), Some(KH)], &[Some(KH)]);
     {
         let mut g = kkh.st.lock().unwrap();
         g.offered = K1U;
         g.status_guid = Some(KEYS[K1U].guid.to_string());
     }
-    phase(&mut t, &mut story, "host announces K1U (K1's guid in upper case, another secret) and hands it out", &[Some(KH), Some(K1U)], Some(K1U));
+    phase(&mut t, &mut story, "host announces K1U (K1's guid in upper case, another secret) and hands it out", &[Some(KH), Some(K1U)], &[Some(K1U)]);
 
     {
         let mut g = kkh.st.lock().unwrap();
         g.offered = KL;
         g.status_guid = Some("dead0000-0000-4000-8000-00000000beef".to_string());
     }
-    phase(&mut t, &mut story, "host announces a guid it has no key for and hands out KL", &[Some(K1U), Some(KL)], Some(KL));
+    phase(&mut t, &mut story, "host announces a guid it has no key for and hands out KL", &[Some(K1U), Some(KL)], &[Some(KL)]);
+
+    // ---- key files whose record does not carry the guid of the file name (stale / copied / renamed file, other letter case):
+    //      the host knows both records; whatever the agent latches from such a file, id and MAC must belong to ONE record
+    let plant = |file_guid: &str, record: usize| {
+        let _ = std::fs::create_dir_all(dir.join("keys"));
+        std::fs::write(dir.join("keys").join(format!("{}.key", file_guid)), key_json(record).to_string()).expect("write key file");
+    };
+    plant(KEYS[K3].guid, K2);
+    {
+        let mut g = kkh.st.lock().unwrap();
+        g.offered = K3;
+        g.status_guid = Some(KEYS[K3].guid.to_string());
+    }
+    phase(&mut t, &mut story, "key file <K3 guid>.key holds the record of K2; host announces K3 (would hand out K3)", &[Some(KL), Some(K2), Some(K3)], &[Some(K2), Some(K3)]);
+    plant(KEYS[K1U].guid, K1);
+    {
+        let mut g = kkh.st.lock().unwrap();
+        g.offered = K1U;
+        g.status_guid = Some(KEYS[K1U].guid.to_string());
+    }
+    phase(&mut t, &mut story, "key file <K1U guid>.key holds the record of K1 (same guid in lower case, another secret); host announces K1U", &[Some(K2), Some(K3), Some(K1), Some(K1U)], &[Some(K1), Some(K1U)]);
+    {
+        let mut g = kkh.st.lock().unwrap();
+        g.channel = "Disabled";
+    }
+    phase(&mut t, &mut story, "secure channel disabled", &[Some(K1), Some(K1U), None], &[None]);
+    plant(KEYS[K1].guid, K1U);
+    plant(KEYS[KH].guid, KL);
+    {
+        let mut g = kkh.st.lock().unwrap();
+        g.channel = "Wireserver";
+        g.offered = K1;
+        g.status_guid = Some(KEYS[K1].guid.to_string());
+    }
+    phase(&mut t, &mut story, "key file <K1 guid>.key holds the record of K1U (guid in upper case); secure channel enabled, host announces K1", &[None, Some(K1), Some(K1U)], &[Some(K1), Some(K1U)]);
+    {
+        let mut g = kkh.st.lock().unwrap();
+        g.offered = KH;
+        g.status_guid = Some(KEYS[KH].guid.to_string());
+    }
+    phase(&mut t, &mut story, "key file <KH guid>.key holds the record of KL; host announces KH", &[Some(K1), Some(K1U), Some(KL), Some(KH)], &[Some(KL), Some(KH)]);
 
     // the attestation requests: the id in the header is the guid in the URL and the MAC is under that key's secret
     let attests = std::mem::take(&mut kkh.st.lock().unwrap().attests);
